@@ -1,13 +1,663 @@
 /-
 C12  SCALE decoding rejects malformed input safely.
+
+Model: `C12.decodeA` (Model/C12.lean): the walk of `decodeState.unmarshal` with its result, the
+largest read buffer it allocated (`req`) and whether a short read was zero-filled (`zf`).
+Spec: `decode Spec.codec`, the canonical SCALE decoder (rejects truncated input, non-canonical
+compact integers, bad tags), proved sound and truncation-safe in Lib/Scale.
+
+  C12_decodeA_res             decodeA's result is `Unmarshal` (`decode C11.codec`)
+  C12_refines                 no zero-filled read  ⇒  every Go success is the canonical decoder's
+                              success with the same value and rest; a zero-filled read ⇒ the
+                              canonical decoder rejects the input
+  C12_decode_sound_partial    (zf = false) success ⇒ input = canonical encoding of the value ++ rest
+  C12_truncated_partial       (zf = false) strict prefixes of canonical encodings fail
+  C12_noncanonical_rejected   (zf = false) only one byte string decodes to a given (value, rest)
+  C12_*_counterexample        the zero-filled read is real (known finding bytes-short-read)
+  C12_alloc_bounded_partial   types without byte strings: no read buffer above 67 bytes
+  C12_alloc_ok_bounded        successful, not zero-filled decodes: no buffer above max 67 |input|
+  C12_alloc_bounded_counterexample   4 input bytes allocate 2^30-1 (known finding bytes-alloc)
+  C12_no_panic                the model's buffer indexing is always in range
 -/
-import Gossamer.Model.C12
+import Gossamer.Props.C11
 namespace Gossamer.C12
 open Gossamer Gossamer.Scale
 
-/-- canonical decoder: a successful decode consumed exactly the canonical encoding of its result -/
-theorem C12_spec_sound (t : Ty) (hwf : t.wf = true) (bs : Bytes) (v : Val) (r : Bytes)
-    (h : decode Spec.codec t bs = some (v, r)) : wt t v = true ∧ bs = encode Spec.codec t v ++ r :=
-  Spec.sound t hwf bs v r h
+/-! ## the instrumented walk computes `Unmarshal` -/
+
+theorem decNA_res (f : Bytes → DRes) (n : Nat) (bs : Bytes) :
+    (decNA f n bs).res = decN (fun b => (f b).res) n bs := by
+  induction n generalizing bs with
+  | zero => rfl
+  | succ n ih =>
+    simp only [decNA, decN]
+    cases hf : (f bs).res with
+    | none => rfl
+    | some p =>
+      obtain ⟨v, r⟩ := p
+      simp only
+      rw [ih r]
+      cases decN (fun b => (f b).res) n r with
+      | none => rfl
+      | some q => rfl
+
+theorem decN_congr (f g : Bytes → Option (Val × Bytes)) (h : ∀ b, f b = g b) (n : Nat) (bs : Bytes) :
+    decN f n bs = decN g n bs := by
+  have : f = g := funext h
+  rw [this]
+
+/-- the instrumented decoder returns exactly what `Unmarshal` (`decode C11.codec`) returns -/
+theorem C12_decodeA_res (t : Ty) : ∀ bs, (decodeA t bs).res = decode C11.codec t bs := by
+  induction t with
+  | prim p => intro bs; rfl
+  | unit => intro bs; rfl
+  | pair a b iha ihb =>
+    intro bs
+    simp only [decodeA, decode]
+    rw [← iha bs]
+    cases h1 : (decodeA a bs).res with
+    | none => rfl
+    | some p =>
+      obtain ⟨x, r⟩ := p
+      simp only
+      rw [← ihb r]
+      cases (decodeA b r).res with
+      | none => rfl
+      | some q => rfl
+  | option t ih =>
+    intro bs
+    cases bs with
+    | nil => rfl
+    | cons tag r =>
+      simp only [decodeA, decode]
+      by_cases h0 : tag = 0
+      · simp [h0]
+      · by_cases h1 : tag = 1
+        · simp only [h0, h1, if_false, if_true]
+          rw [← ih r]
+          cases (decodeA t r).res with
+          | none => rfl
+          | some q => rfl
+        · simp [h0, h1]
+  | result a b iha ihb =>
+    intro bs
+    cases bs with
+    | nil => rfl
+    | cons tag r =>
+      simp only [decodeA, decode]
+      by_cases h0 : tag = 0
+      · simp only [h0, if_true]
+        rw [← iha r]
+        cases (decodeA a r).res with
+        | none => rfl
+        | some q => rfl
+      · by_cases h1 : tag = 1
+        · simp only [h0, h1, if_false, if_true]
+          rw [← ihb r]
+          cases (decodeA b r).res with
+          | none => rfl
+          | some q => rfl
+        · simp [h0, h1]
+  | array n t ih =>
+    intro bs
+    simp only [decodeA, decode]
+    rw [decNA_res, decN_congr _ _ ih]
+    cases decN (decode C11.codec t) n bs with
+    | none => rfl
+    | some q => rfl
+  | seq t ih =>
+    intro bs
+    simp only [decodeA, decode]
+    show _ = match C11.decodeUintV bs with
+      | none => none
+      | some (n, r) => _
+    cases C11.decodeUintV bs with
+    | none => rfl
+    | some q =>
+      obtain ⟨n, r⟩ := q
+      simp only
+      rw [decNA_res, decN_congr _ _ ih]
+      cases decN (decode C11.codec t) n r with
+      | none => rfl
+      | some q => rfl
+  | enumNil => intro bs; rfl
+  | enumCons i t rest iht ihr =>
+    intro bs
+    cases bs with
+    | nil => rfl
+    | cons tag r =>
+      simp only [decodeA, decode]
+      by_cases ht : tag.toNat = i
+      · simp only [ht, if_true]
+        rw [← iht r]
+        cases (decodeA t r).res with
+        | none => rfl
+        | some q => rfl
+      · simp only [ht, if_false]
+        exact ihr (tag :: r)
+
+/-! ## the Go decoder against the canonical decoder -/
+
+/-- outcome `(res, zf)` of the Go decoder against the canonical outcome `spec`:
+    without a zero-filled read every success is the canonical success; with one, the canonical
+    decoder rejects -/
+def Refines {α : Type} (res : Option α) (zf : Bool) (spec : Option α) : Prop :=
+  (zf = false → ∀ x, res = some x → spec = some x) ∧ (zf = true → spec = none)
+
+theorem goFilter_some (p : Prim) (o : Option (Val × Bytes)) (x : Val × Bytes)
+    (h : C11.goFilter p o = some x) : o = some x := by
+  cases p <;> simp only [C11.goFilter] at h <;> try exact h
+  -- compact
+  cases o with
+  | none => simp [C11.goFilter] at h
+  | some q =>
+    obtain ⟨v, r⟩ := q
+    cases v <;> simp only [C11.goFilter] at h <;> try exact h
+    rename_i n
+    by_cases hok : C11.uintOk n = true
+    · simpa [hok] using h
+    · simp [hok] at h
+
+theorem prim_refines (p : Prim) (bs : Bytes) :
+    Refines (C11.decPA p bs).res (C11.decPA p bs).zf (Spec.decKind p.kind bs) := by
+  have ⟨h1, h2⟩ := C11.decPA_spec p bs
+  refine ⟨fun hz x hx => ?_, h2⟩
+  rw [h1 hz] at hx
+  exact goFilter_some p _ x hx
+
+theorem filt_some (o : Option (Nat × Bytes)) (x : Nat × Bytes) (h : C11.filt o = some x) : o = some x := by
+  cases o with
+  | none => simp [C11.filt] at h
+  | some q =>
+    obtain ⟨n, r⟩ := q
+    by_cases hok : C11.uintOk n = true
+    · simpa [C11.filt, hok] using h
+    · simp [C11.filt, hok] at h
+
+/-- `decodeLength`: a success is a canonical length below 2^64 -/
+theorem len_refines (bs : Bytes) (n : Nat) (r : Bytes) (h : C11.decodeUintV bs = some (n, r)) :
+    Spec.decLen bs = some (n, r) := by
+  rw [C11.decodeUint_spec] at h
+  have hc := filt_some _ _ h
+  have hok : C11.uintOk n = true := by
+    rw [hc] at h
+    by_cases hok : C11.uintOk n = true
+    · exact hok
+    · simp [C11.filt, hok] at h
+  have hlt := C11.uintOk_lt hok
+  have : n < maxSeqLen := by rw [C11.maxSeqLen_eq, C11.pow2_64, ← C11.pow256_8]; exact hlt
+  simp [Spec.decLen, hc, this]
+
+theorem decNA_refines (f : Bytes → DRes) (g : Bytes → Option (Val × Bytes))
+    (h : ∀ bs, Refines (f bs).res (f bs).zf (g bs)) :
+    ∀ n bs, Refines (decNA f n bs).res (decNA f n bs).zf (decN g n bs) := by
+  intro n
+  induction n with
+  | zero =>
+    intro bs
+    refine ⟨fun _ x hx => ?_, fun hz => ?_⟩
+    · simpa [decNA, decN] using hx
+    · simp [decNA] at hz
+  | succ n ih =>
+    intro bs
+    have hb := h bs
+    simp only [decNA, decN]
+    cases ho : (f bs).res with
+    | none =>
+      refine ⟨fun _ x hx => by simp at hx, fun hz => ?_⟩
+      try simp only at hz
+      rw [hb.2 hz]
+    | some p =>
+      obtain ⟨v, r⟩ := p
+      have hr := ih r
+      simp only
+      refine ⟨fun hz x hx => ?_, fun hz => ?_⟩
+      · simp only [Bool.or_eq_false_iff] at hz
+        rw [hb.1 hz.1 _ ho]
+        simp only
+        cases hl : (decNA f n r).res with
+        | none => simp [hl] at hx
+        | some q =>
+          obtain ⟨vs, r'⟩ := q
+          simp only [hl, Option.map_some, Option.some.injEq] at hx
+          rw [hr.1 hz.2 _ hl]
+          simp [← hx]
+      · simp only [Bool.or_eq_true] at hz
+        cases hzf : (f bs).zf with
+        | true => rw [hb.2 hzf]
+        | false =>
+          rw [hb.1 hzf _ ho]
+          simp only
+          have : (decNA f n r).zf = true := by
+            rcases hz with hz | hz
+            · rw [hzf] at hz; cases hz
+            · exact hz
+          rw [hr.2 this]
+
+/-- **Refinement**: for every type and every input, without a zero-filled read each success of the
+    Go decoder is the success of the canonical decoder (same value, same rest); with a zero-filled
+    read the canonical decoder rejects the input. -/
+theorem C12_refines (t : Ty) :
+    ∀ bs, Refines (decodeA t bs).res (decodeA t bs).zf (decode Spec.codec t bs) := by
+  induction t with
+  | prim p => intro bs; exact prim_refines p bs
+  | unit =>
+    intro bs
+    refine ⟨fun _ x hx => ?_, fun hz => ?_⟩
+    · simpa [decodeA, decode] using hx
+    · simp [decodeA] at hz
+  | pair a b iha ihb =>
+    intro bs
+    have ha := iha bs
+    simp only [decodeA, decode]
+    cases ho : (decodeA a bs).res with
+    | none =>
+      refine ⟨fun _ x hx => by simp at hx, fun hz => ?_⟩
+      try simp only at hz
+      rw [ha.2 hz]
+    | some p =>
+      obtain ⟨x, r⟩ := p
+      have hb := ihb r
+      simp only
+      refine ⟨fun hz y hy => ?_, fun hz => ?_⟩
+      · simp only [Bool.or_eq_false_iff] at hz
+        rw [ha.1 hz.1 _ ho]
+        simp only
+        cases hl : (decodeA b r).res with
+        | none => simp [hl] at hy
+        | some q =>
+          obtain ⟨w, r'⟩ := q
+          simp only [hl, Option.map_some, Option.some.injEq] at hy
+          rw [hb.1 hz.2 _ hl]
+          simp [← hy]
+      · simp only [Bool.or_eq_true] at hz
+        cases hzf : (decodeA a bs).zf with
+        | true => rw [ha.2 hzf]
+        | false =>
+          rw [ha.1 hzf _ ho]
+          simp only
+          have : (decodeA b r).zf = true := by
+            rcases hz with hz | hz
+            · rw [hzf] at hz; cases hz
+            · exact hz
+          rw [hb.2 this]
+  | option t ih =>
+    intro bs
+    cases bs with
+    | nil =>
+      refine ⟨fun _ x hx => by simp [decodeA] at hx, fun hz => by simp [decodeA] at hz⟩
+    | cons tag r =>
+      simp only [decodeA, decode]
+      by_cases h0 : tag = 0
+      · simp only [h0, if_true]
+        refine ⟨fun _ x hx => by simpa using hx, fun hz => by simp at hz⟩
+      · by_cases h1 : tag = 1
+        · subst h1
+          have h10 : ¬ ((1:UInt8) = 0) := by decide
+          simp only [h10, if_false, if_true]
+          have hr := ih r
+          refine ⟨fun hz y hy => ?_, fun hz => ?_⟩
+          · try simp only at hz
+            cases hl : (decodeA t r).res with
+            | none => simp [hl] at hy
+            | some q =>
+              obtain ⟨w, r'⟩ := q
+              simp only [hl, Option.map_some, Option.some.injEq] at hy
+              rw [hr.1 hz _ hl]
+              simp [← hy]
+          · try simp only at hz
+            rw [hr.2 hz]
+        · simp only [h0, h1, if_false]
+          refine ⟨fun _ x hx => by simp at hx, fun hz => by simp at hz⟩
+  | result a b iha ihb =>
+    intro bs
+    cases bs with
+    | nil =>
+      refine ⟨fun _ x hx => by simp [decodeA] at hx, fun hz => by simp [decodeA] at hz⟩
+    | cons tag r =>
+      simp only [decodeA, decode]
+      by_cases h0 : tag = 0
+      · simp only [h0, if_true]
+        have hr := iha r
+        refine ⟨fun hz y hy => ?_, fun hz => ?_⟩
+        · try simp only at hz
+          cases hl : (decodeA a r).res with
+          | none => simp [hl] at hy
+          | some q =>
+            obtain ⟨w, r'⟩ := q
+            simp only [hl, Option.map_some, Option.some.injEq] at hy
+            rw [hr.1 hz _ hl]
+            simp [← hy]
+        · try simp only at hz
+          rw [hr.2 hz]
+      · by_cases h1 : tag = 1
+        · subst h1
+          have h10 : ¬ ((1:UInt8) = 0) := by decide
+          simp only [h10, if_false, if_true]
+          have hr := ihb r
+          refine ⟨fun hz y hy => ?_, fun hz => ?_⟩
+          · try simp only at hz
+            cases hl : (decodeA b r).res with
+            | none => simp [hl] at hy
+            | some q =>
+              obtain ⟨w, r'⟩ := q
+              simp only [hl, Option.map_some, Option.some.injEq] at hy
+              rw [hr.1 hz _ hl]
+              simp [← hy]
+          · try simp only at hz
+            rw [hr.2 hz]
+        · simp only [h0, h1, if_false]
+          refine ⟨fun _ x hx => by simp at hx, fun hz => by simp at hz⟩
+  | array n t ih =>
+    intro bs
+    have hl := decNA_refines (decodeA t) (decode Spec.codec t) ih n bs
+    simp only [decodeA, decode]
+    refine ⟨fun hz y hy => ?_, fun hz => ?_⟩
+    · try simp only at hz
+      cases hr : (decNA (decodeA t) n bs).res with
+      | none => simp [hr] at hy
+      | some q =>
+        obtain ⟨vs, r'⟩ := q
+        simp only [hr, Option.map_some, Option.some.injEq] at hy
+        rw [hl.1 hz _ hr]
+        simp [← hy]
+    · try simp only at hz
+      rw [hl.2 hz]
+  | seq t ih =>
+    intro bs
+    simp only [decodeA, decode]
+    show Refines _ _ (match Spec.decLen bs with
+      | none => none
+      | some (n, r) => _)
+    cases hu : C11.decodeUintV bs with
+    | none =>
+      refine ⟨fun _ x hx => by simp at hx, fun hz => by simp at hz⟩
+    | some q =>
+      obtain ⟨n, r⟩ := q
+      have hlen := len_refines bs n r hu
+      rw [hlen]
+      have hl := decNA_refines (decodeA t) (decode Spec.codec t) ih n r
+      simp only
+      refine ⟨fun hz y hy => ?_, fun hz => ?_⟩
+      · try simp only at hz
+        cases hr : (decNA (decodeA t) n r).res with
+        | none => simp [hr] at hy
+        | some q =>
+          obtain ⟨vs, r'⟩ := q
+          simp only [hr, Option.map_some, Option.some.injEq] at hy
+          rw [hl.1 hz _ hr]
+          simp [← hy]
+      · try simp only at hz
+        rw [hl.2 hz]
+  | enumNil =>
+    intro bs
+    refine ⟨fun _ x hx => by simp [decodeA] at hx, fun hz => by simp [decodeA] at hz⟩
+  | enumCons i t rest iht ihr =>
+    intro bs
+    cases bs with
+    | nil =>
+      refine ⟨fun _ x hx => by simp [decodeA] at hx, fun hz => by simp [decodeA] at hz⟩
+    | cons tag r =>
+      simp only [decodeA, decode]
+      by_cases ht : tag.toNat = i
+      · simp only [ht, if_true]
+        have hr := iht r
+        refine ⟨fun hz y hy => ?_, fun hz => ?_⟩
+        · try simp only at hz
+          cases hl : (decodeA t r).res with
+          | none => simp [hl] at hy
+          | some q =>
+            obtain ⟨w, r'⟩ := q
+            simp only [hl, Option.map_some, Option.some.injEq] at hy
+            rw [hr.1 hz _ hl]
+            simp [← hy]
+        · try simp only at hz
+          rw [hr.2 hz]
+      · simp only [ht, if_false]
+        exact ihr (tag :: r)
+
+
+/-! ## the property statements -/
+
+/-- **Soundness** (partial: known finding bytes-short-read).  Full statement wanted: every
+    successful decode consumed exactly the canonical encoding of its result.  It holds whenever no
+    short read was zero-filled (`zf = false`). -/
+theorem C12_decode_sound_partial (t : Ty) (hwf : t.wf = true) (bs : Bytes) (v : Val) (r : Bytes)
+    (hz : (decodeA t bs).zf = false) (h : (decodeA t bs).res = some (v, r)) :
+    wt t v = true ∧ bs = encode Spec.codec t v ++ r :=
+  Spec.sound t hwf bs v r ((C12_refines t bs).1 hz _ h)
+
+/-- the same for `Unmarshal` itself -/
+theorem C12_unmarshal_sound_partial (t : Ty) (hwf : t.wf = true) (bs : Bytes) (v : Val) (r : Bytes)
+    (hz : (decodeA t bs).zf = false) (h : C11.unmarshal t bs = some (v, r)) :
+    wt t v = true ∧ bs = encode Spec.codec t v ++ r :=
+  C12_decode_sound_partial t hwf bs v r hz (by rw [C12_decodeA_res]; exact h)
+
+/-- **Truncation** (partial): a strict prefix of a canonical encoding is rejected, unless the
+    decoder zero-filled a short read of a byte string. -/
+theorem C12_truncated_partial (t : Ty) (hwf : t.wf = true) (v : Val) (p s : Bytes)
+    (hw : wt t v = true) (he : encode Spec.codec t v = p ++ s) (hs : s ≠ [])
+    (hz : (decodeA t p).zf = false) : (decodeA t p).res = none := by
+  cases h : (decodeA t p).res with
+  | none => rfl
+  | some x =>
+    have := (C12_refines t p).1 hz x h
+    rw [Spec.truncated t hwf v p s hw he hs] at this
+    cases this
+
+/-- **Non-canonical input is rejected** (partial): two inputs that decode (without zero fill) to
+    the same value and the same rest are the same byte string. -/
+theorem C12_noncanonical_rejected (t : Ty) (hwf : t.wf = true) (bs bs' : Bytes) (v : Val) (r : Bytes)
+    (hz : (decodeA t bs).zf = false) (h : (decodeA t bs).res = some (v, r))
+    (hz' : (decodeA t bs').zf = false) (h' : (decodeA t bs').res = some (v, r)) : bs = bs' := by
+  rw [(C12_decode_sound_partial t hwf bs v r hz h).2, (C12_decode_sound_partial t hwf bs' v r hz' h').2]
+
+/-- a zero-filled read is exactly where the canonical decoder rejects -/
+theorem C12_zero_fill_is_malformed (t : Ty) (bs : Bytes) (hz : (decodeA t bs).zf = true) :
+    decode Spec.codec t bs = none := (C12_refines t bs).2 hz
+
+/-- the excluded region is real: `10 01 02` declares 4 bytes and carries 2; the Go decoder
+    succeeds, consumes everything and returns the zero-filled `01 02 00 00`, whose encoding
+    `10 01 02 00 00` is not the input; the input is a strict prefix of the encoding of `01 02 03 04` -/
+theorem C12_decode_sound_counterexample :
+    (decodeA (.prim .bytes) [0x10, 1, 2]).zf = true ∧
+    (decodeA (.prim .bytes) [0x10, 1, 2]).res.map (fun p => encode Spec.codec (.prim .bytes) p.1 ++ p.2)
+      = some [0x10, 1, 2, 0, 0] ∧
+    encode Spec.codec (.prim .bytes) (.bytes [1, 2, 3, 4]) = [0x10, 1, 2] ++ [3, 4] := by
+  refine ⟨by decide, by decide, by decide⟩
+
+/-- non-vacuity of the hypotheses: a non-trivial successful decode without zero fill -/
+example : (decodeA (.pair (.prim .bytes) (.pair (.prim .compact) .unit)) [0x08, 7, 9, 0x01, 0x01, 5]).zf = false ∧
+    (decodeA (.pair (.prim .bytes) (.pair (.prim .compact) .unit)) [0x08, 7, 9, 0x01, 0x01, 5]).res.isSome = true ∧
+    Ty.wf (.pair (.prim .bytes) (.pair (.prim .compact) .unit)) = true := by
+  refine ⟨by decide, by decide, by decide⟩
+
+/-! ## allocation -/
+
+/-- no byte string / string anywhere in the type -/
+def noBytes : Ty → Bool
+  | .prim .bytes => false
+  | .prim .str => false
+  | .prim _ => true
+  | .unit => true
+  | .pair a b => noBytes a && noBytes b
+  | .option t => noBytes t
+  | .result a b => noBytes a && noBytes b
+  | .array _ t => noBytes t
+  | .seq t => noBytes t
+  | .enumNil => true
+  | .enumCons _ t rest => noBytes t && noBytes rest
+
+theorem decodeUintReq_le (bs : Bytes) : C11.decodeUintReq bs ≤ 8 := by
+  cases bs with
+  | nil => simp [C11.decodeUintReq]
+  | cons b r =>
+    simp only [C11.decodeUintReq]
+    split
+    · omega
+    · split
+      · split <;> omega
+      · omega
+
+theorem decBigReq_le (bs : Bytes) : C11.decBigReq bs ≤ 67 := by
+  cases bs with
+  | nil => simp [C11.decBigReq]
+  | cons b r =>
+    have := b.toNat_lt
+    simp only [C11.decBigReq]
+    split
+    · omega
+    · split <;> omega
+
+theorem decFixed_req (w : Nat) (s : Bool) (bs : Bytes) : (C11.decFixed w s bs).req = w := by
+  unfold C11.decFixed
+  cases C11.readFull w bs with
+  | none => rfl
+  | some p => rfl
+
+theorem prim_req_le (p : Prim) (bs : Bytes) (h : noBytes (.prim p) = true) :
+    (C11.decPA p bs).req ≤ 67 := by
+  cases p <;> simp only [noBytes, Bool.false_eq_true] at h <;> simp only [C11.decPA]
+  case u8 => rw [decFixed_req]; omega
+  case u16 => rw [decFixed_req]; omega
+  case u32 => rw [decFixed_req]; omega
+  case u64 => rw [decFixed_req]; omega
+  case u128 => rw [decFixed_req]; omega
+  case i8 => rw [decFixed_req]; omega
+  case i16 => rw [decFixed_req]; omega
+  case i32 => rw [decFixed_req]; omega
+  case i64 => rw [decFixed_req]; omega
+  case compact =>
+    have := decodeUintReq_le bs
+    unfold C11.decCompact
+    cases C11.decodeUintV bs with
+    | none => simp [C11.PRes.fail]; omega
+    | some q => simp [C11.PRes.ok]; omega
+  case big =>
+    have := decBigReq_le bs
+    unfold C11.decBig
+    cases C11.decBigV bs with
+    | none => simp [C11.PRes.fail]; omega
+    | some q => simp [C11.PRes.ok]; omega
+  case bool =>
+    cases bs with
+    | nil => simp [C11.decBool, C11.PRes.fail]
+    | cons b r =>
+      simp only [C11.decBool]
+      split
+      · simp [C11.PRes.ok]
+      · split <;> simp [C11.PRes.ok, C11.PRes.fail]
+
+theorem decNA_req_le (f : Bytes → DRes) (k : Nat) (h : ∀ bs, (f bs).req ≤ k) :
+    ∀ n bs, (decNA f n bs).req ≤ k := by
+  intro n
+  induction n with
+  | zero => intro bs; simp [decNA]
+  | succ n ih =>
+    intro bs
+    simp only [decNA]
+    cases ho : (f bs).res with
+    | none => exact h bs
+    | some p =>
+      obtain ⟨v, r⟩ := p
+      simp only
+      exact Nat.max_le.2 ⟨h bs, ih r⟩
+
+/-- **Allocation** (partial: known finding bytes-alloc).  Full statement wanted: the decoder never
+    allocates a read buffer larger than a constant plus the input.  For every type without byte
+    strings, on every input, no buffer exceeds 67 bytes. -/
+theorem C12_alloc_bounded_partial (t : Ty) (h : noBytes t = true) :
+    ∀ bs, (decodeA t bs).req ≤ 67 := by
+  induction t with
+  | prim p => intro bs; exact prim_req_le p bs h
+  | unit => intro bs; simp [decodeA]
+  | pair a b iha ihb =>
+    simp only [noBytes, Bool.and_eq_true] at h
+    intro bs
+    simp only [decodeA]
+    cases ho : (decodeA a bs).res with
+    | none => exact iha h.1 bs
+    | some p =>
+      obtain ⟨x, r⟩ := p
+      exact Nat.max_le.2 ⟨iha h.1 bs, ihb h.2 r⟩
+  | option t ih =>
+    simp only [noBytes] at h
+    intro bs
+    cases bs with
+    | nil => simp [decodeA]
+    | cons tag r =>
+      simp only [decodeA]
+      split
+      · simp
+      · split
+        · exact Nat.max_le.2 ⟨by omega, ih h r⟩
+        · simp
+  | result a b iha ihb =>
+    simp only [noBytes, Bool.and_eq_true] at h
+    intro bs
+    cases bs with
+    | nil => simp [decodeA]
+    | cons tag r =>
+      simp only [decodeA]
+      split
+      · exact Nat.max_le.2 ⟨by omega, iha h.1 r⟩
+      · split
+        · exact Nat.max_le.2 ⟨by omega, ihb h.2 r⟩
+        · simp
+  | array n t ih =>
+    simp only [noBytes] at h
+    intro bs
+    simp only [decodeA]
+    exact decNA_req_le _ 67 (ih h) n bs
+  | seq t ih =>
+    simp only [noBytes] at h
+    intro bs
+    have hq := decodeUintReq_le bs
+    simp only [decodeA]
+    cases hu : C11.decodeUintV bs with
+    | none => simp only; omega
+    | some q =>
+      obtain ⟨n, r⟩ := q
+      simp only
+      exact Nat.max_le.2 ⟨by omega, decNA_req_le _ 67 (ih h) n r⟩
+  | enumNil => intro bs; simp [decodeA]
+  | enumCons i t rest iht ihr =>
+    simp only [noBytes, Bool.and_eq_true] at h
+    intro bs
+    cases bs with
+    | nil => simp [decodeA]
+    | cons tag r =>
+      simp only [decodeA]
+      split
+      · exact Nat.max_le.2 ⟨by omega, iht h.1 r⟩
+      · exact ihr h.2 (tag :: r)
+
+/-- the excluded region is real: the 4 input bytes `fe ff ff ff` declare a byte string of
+    2^30-1 bytes; the decoder allocates all of it before it finds the input empty -/
+theorem C12_alloc_bounded_counterexample :
+    (decodeA (.prim .bytes) [0xfe, 0xff, 0xff, 0xff]).req = 1073741823 ∧
+    (decodeA (.prim .bytes) [0xfe, 0xff, 0xff, 0xff]).res.isNone = true := by
+  refine ⟨by decide, by decide⟩
+
+/-! ## no panic -/
+
+/-- **No panic**: every buffer the decoder indexes or hands to `binary.LittleEndian.UintN` was
+    filled by `io.ReadFull` to exactly the size it was made with, so `buf[byteLen-1]`
+    (`decodeBigInt`) and the fixed-size reads are always in range; the model is a total function
+    of (type, input).  (Panics of the reflect walk itself are observed by the harness only.) -/
+theorem C12_no_panic (k : Nat) (bs buf r : Bytes) (h : C11.readFull k bs = some (buf, r)) :
+    buf.length = k ∧ bs = buf ++ r ∧ (0 < k → buf.getLast?.isSome = true) := by
+  unfold C11.readFull at h
+  by_cases hl : bs.length < k
+  · simp [hl] at h
+  · simp only [hl, if_false, Option.some.injEq, Prod.mk.injEq] at h
+    obtain ⟨h1, h2⟩ := h
+    subst h1; subst h2
+    have hlen : (bs.take k).length = k := by simp; omega
+    refine ⟨hlen, by simp, fun hk => ?_⟩
+    cases hb : bs.take k with
+    | nil => rw [hb] at hlen; simp at hlen; omega
+    | cons x xs => simp
+
 
 end Gossamer.C12
